@@ -372,10 +372,9 @@ FILES3 = ["root/a.phil", "root/sub/b.phil", "root/sub/deep/c.phil"]
 FILES4 = FILES3 + ["root/other/d.phil"]
 DIRS = ["root", "root/sub", "root/sub/deep", "root/other", "elsewhere", "elsewhere/sub"]
 # same base names next to the two current directories: picked up only by a wrong resolution
-DECOYS = [["elsewhere/a.phil", "decoy_a = 1\n"], ["elsewhere/b.phil", "decoy_b = 1\n"],
-          ["elsewhere/sub/b.phil", "decoy_sb = 1\n"], ["root/sub/a.phil", "decoy_sa = 1\n"],
-          ["elsewhere/deep/c.phil", "decoy_c = 1\n"], ["root/sub/sub/b.phil", "decoy_ssb = 1\n"],
-          ["root/sub/other/d.phil", "decoy_d = 1\n"], ["elsewhere/other/d.phil", "decoy_d2 = 1\n"]]
+DECOYS = [["elsewhere/a.phil", "decoy_a = 1\n"], ["elsewhere/sub/b.phil", "decoy_sb = 1\n"],
+          ["root/sub/a.phil", "decoy_sa = 1\n"], ["root/sub/sub/b.phil", "decoy_ssb = 1\n"],
+          ["root/sub/deep/deep/c.phil", "decoy_ddc = 1\n"], ["elsewhere/other/d.phil", "decoy_d = 1\n"]]
 
 
 def spell(rng, includer, target):
@@ -460,7 +459,7 @@ class Graphs(IncludeStream):
             for _ in range(30000):
                 incs = [tuple(rng.randrange(4) for _ in range(rng.choice([0, 1, 1, 2, 2, 3]))) for _ in range(4)]
                 yield graph_case(rng, FILES4, incs)
-            yield from self.dags(rng, 6000)
+            yield from self.dags(rng, 3000)
 
     def dags(self, rng, n):
         """acyclic graphs over 4 files (includes point to later files only): chains and diamonds,
